@@ -26,6 +26,15 @@ const FRAME_MUTATIONS: &[&str] = &[
     "query_answered_with_non_utf8_error", "parse_answered_with_non_utf8_error",
 ];
 
+thread_local! {
+    /// statement text of the current case: hostile Parse mutations use it, and the canary prepares it
+    /// (properly, with no parameters) right afterwards
+    static SHARED_TEXT: std::cell::RefCell<String> = std::cell::RefCell::new("SELECT 2 /*v q=shared.prepared rows=1 */".to_string());
+}
+fn shared_text() -> String {
+    SHARED_TEXT.with(|t| t.borrow().clone())
+}
+
 const STARTUP_MUTATIONS: &[&str] = &[
     "len_0", "len_4", "len_7", "len_8_unknown_code", "len_negative", "len_huge_then_close", "unknown_code", "ssl_request_twice",
     "no_user_param", "odd_param_count", "no_terminator", "random_garbage", "cancel_request_short", "protocol_2",
@@ -60,17 +69,23 @@ fn hostile_frames(rng: &mut Rng, m: &str) -> Vec<u8> {
         "len_64mib_then_close" => frame(*rng.pick(&[b'Q', b'P', b'd']), 64 << 20, b"x"),
         "unknown_type" => Msg::new(*rng.pick(&[b'~', b'!', 0u8, 0xff, b'z', b'T', b'Z', b'1']), vec![1, 2, 3, 0]).encode(),
         "parse_no_terminators" => Msg::new(b'P', b"stmt select 1".to_vec()).encode(),
+        // (the statement text is the one the well-behaved canary prepares too: a malformed
+        // statement must not get in the way of the same text sent properly by somebody else)
         "parse_negative_param_count" => {
             let mut b = cs("s");
-            b.extend(cs("select 1"));
-            b.extend_from_slice(&(-5i16).to_be_bytes());
-            Msg::new(b'P', b).encode()
+            b.extend(cs(&shared_text()));
+            b.extend_from_slice(&(-(rng.range(1, 5) as i16)).to_be_bytes());
+            let mut v = Msg::new(b'P', b).encode();
+            v.extend(proto::sync());
+            v
         }
         "parse_huge_param_count" => {
             let mut b = cs("s");
-            b.extend(cs("select 1"));
+            b.extend(cs(&shared_text()));
             b.extend_from_slice(&(30000i16).to_be_bytes());
-            Msg::new(b'P', b).encode()
+            let mut v = Msg::new(b'P', b).encode();
+            v.extend(proto::sync());
+            v
         }
         "bind_no_terminators" => Msg::new(b'B', b"portal stmt".to_vec()).encode(),
         "bind_negative_counts" => {
@@ -247,6 +262,16 @@ fn canary(cell: &Cell, pool: &str, id: &str, n: u64) -> Result<(), String> {
     if proto::type_string(&r) != "TDDCZ" || ids.len() != 2 || ids.iter().any(|x| x.2 != qid) || r.last().map(|z| z.body.first().copied()) != Some(Some(b'I')) {
         return Err(format!("wrong reply: {}", summarize(&r)));
     }
+    // and a prepared statement with a fixed text, over the extended protocol
+    let mut b = proto::parse("cs", &shared_text(), &[]);
+    b.extend(proto::bind("", "cs", &[], &[], &[]));
+    b.extend(proto::execute("", 0));
+    b.extend(proto::sync());
+    c.send(&b).map_err(|e| format!("no reply: send {}", e))?;
+    let r = c.read_until_ready(10_000).map_err(|(m, e)| format!("no reply to the prepared statement: {:?} after {}", e, summarize(&m)))?;
+    if proto::type_string(&r) != "12DCZ" || row_idents(&r).len() != 1 {
+        return Err(format!("wrong reply to the prepared statement: {}", summarize(&r)));
+    }
     c.terminate();
     Ok(())
 }
@@ -270,6 +295,7 @@ fn batch(seed: u64, cases: usize, rep: &Report) -> Result<(), String> {
             state = STATES.iter().find(|x| **x == s).copied().unwrap_or(state);
             mutation = FRAME_MUTATIONS.iter().chain(STARTUP_MUTATIONS.iter()).find(|x| **x == m).copied().unwrap_or(mutation);
         }
+        SHARED_TEXT.with(|t| *t.borrow_mut() = format!("SELECT 2 /*v q=shared.prepared.{}.{} rows=1 */", seed % 100_000, ci));
         let case_name = format!("state={}|mutation={}", state, mutation);
         rep.eval(1);
         rep.distinct_str(&case_name);
@@ -364,6 +390,13 @@ fn batch(seed: u64, cases: usize, rep: &Report) -> Result<(), String> {
         for e in cell.log.since(n_log0) {
             if let Ev::Handover { next, state: st, prev, .. } = &e.ev {
                 if next == "canary" {
+                    if std::env::var("PGV_DEBUG").is_ok() && !dirty_components(st, cache_on).is_empty() {
+                        println!("{}", cell.pg().log_text());
+                        let labels = cell.labels();
+                        for e in cell.log.since(n_log0) {
+                            println!("{}", crate::evlog::render_event(&e, &labels));
+                        }
+                    }
                     for comp in dirty_components(st, cache_on) {
                         rep.violation(&format!("C11|canary_got_dirty_server_session|{}|dirty={}", case_name, comp), &format!("after hostile input {} the canary was given the server session last used by {} in state [{}]", case_name, prev, st.render()), wit(&mut cell));
                     }
